@@ -33,18 +33,87 @@ def rand_graph(rng, nmax=6, allow_parallel=True, allow_loops=False, nmin=1):
     return n, edges
 
 
+def _mix(n, edges):
+    """Deterministic small hash of a graph description (no Python hash(): that one is salted per process)."""
+    x = n * 7 + len(edges) * 13
+    for k, (a, b) in enumerate(edges):
+        x = (x * 31 + a * 5 + b * 3 + k) % 1000003
+    return x
+
+
+def limited(seconds, fn, *a, **kw):
+    """core.with_timeout, but safe to use inside another time limit (the outer one then stays in force)."""
+    import signal
+    if signal.getitimer(signal.ITIMER_REAL)[0] > 0:
+        return fn(*a, **kw)
+    return core.with_timeout(seconds, fn, *a, **kw)
+
+
+def post_everything(g):
+    """Post every public graph constraint of cspuz.graph on a THROW-AWAY Solver with the graph as it is now.  Posting a constraint
+    must not leave anything behind on (or keyed by) the Graph object: adjacency snapshots, memoised neighbour lists, cached line
+    graphs ... -- `add_edge` afterwards must still count for every later call.  Each call is guarded (an exception here is not what
+    is being tested) and time-limited (core.RealTimeout propagates like everywhere else)."""
+    from cspuz import Solver, graph as G
+    from cspuz.array import BoolArray1D, IntArray1D
+    n, m = g.num_vertices, len(g)
+    posts = []
+    for acyclic in (False, True):
+        for prim in (False, True):
+            posts.append(lambda s, acyclic=acyclic, prim=prim: G.active_vertices_connected(
+                s, [s.bool_var() for _ in range(n)], g, acyclic=acyclic, use_graph_primitive=prim))
+    posts.append(lambda s: G.active_vertices_connected(s, s.bool_array(n), g))
+    posts.append(lambda s: G.active_vertices_not_adjacent(s, [s.bool_var() for _ in range(n)], g))
+    posts.append(lambda s: G.active_vertices_not_adjacent_and_not_segmenting(s, s.bool_array(n), g))
+    posts.append(lambda s: G.active_edges_acyclic(s, [s.bool_var() for _ in range(m)], g))
+    for prim in (False, True):
+        posts.append(lambda s, prim=prim: G.active_edges_single_cycle(s, [s.bool_var() for _ in range(m)], g, use_graph_primitive=prim))
+        posts.append(lambda s, prim=prim: G.active_edges_single_path(s, s.bool_array(m), g, use_graph_primitive=prim))
+    for allow_empty in (False, True):
+        posts.append(lambda s, ae=allow_empty: G.division_connected(
+            s, [s.int_var(0, 1) for _ in range(n)], 2, g, roots=[None, n - 1] if n else None, allow_empty_group=ae))
+    posts.append(lambda s: G._division_connected(s, s.int_array(n, 0, 1), 2, g, use_graph_primitive=True))
+    posts.append(lambda s: G.division_connected_variable_groups(s, graph=g))
+    posts.append(lambda s: G.division_connected_variable_groups(s, graph=g, group_size=[s.int_var(1, max(1, n)) for _ in range(n)]))
+    for prim in (False, True):
+        posts.append(lambda s, prim=prim: G.division_connected_variable_groups_with_borders(
+            s, group_size=[s.int_var(1, max(1, n)) if v % 2 else None for v in range(n)], is_border=[s.bool_var() for _ in range(m)],
+            graph=g, use_graph_primitive=prim))
+    for post in posts:
+        try:
+            limited(20, post, Solver())
+        except Exception:
+            pass
+
+
+OBSERVE_POST_MAX_N = 40
+
+
+def observe_at(n, edges):
+    """Where (before which add_edge) the graph under construction is observed, or None: about half of the graphs with at least two
+    edges, at a split point that varies with the graph."""
+    m = len(edges)
+    if m < 2:
+        return None
+    x = _mix(n, edges)
+    return (1 + (x // 2) % (m - 1)) if x % 2 == 0 else None
+
+
 def mk_graph(n, edges):
-    """The Graph object for (n, edges).  For about a third of the graphs the object is OBSERVED half-way through its
-    construction (every public accessor is read, the line graph is taken) before the remaining edges are added: reading a
-    graph must not freeze or alias anything, `add_edge` afterwards must still count."""
+    """The Graph object for (n, edges).  About half of the graphs (with >= 2 edges) are OBSERVED part-way through their
+    construction before the remaining edges are added: every public accessor is read, the line graph is taken, and (up to
+    OBSERVE_POST_MAX_N vertices) every public graph constraint is POSTED once on a throw-away Solver (`post_everything`).  Reading a
+    graph or posting a constraint on it must not freeze or alias anything: `add_edge` afterwards must still count."""
     from cspuz.graph import Graph
     g = Graph(n)
-    observe_at = len(edges) // 2 if (len(edges) >= 2 and (n + 3 * len(edges)) % 3 == 1) else None
+    at = observe_at(n, edges)
     for k, (a, b) in enumerate(edges):
-        if k == observe_at:
+        if k == at:
             _ = [list(x) for x in g.incident_edges]
             _ = (len(g), list(g), g[0], g.num_vertices, list(g.edges))
             _ = g.line_graph()
+            if n <= OBSERVE_POST_MAX_N:
+                post_everything(g)
         g.add_edge(a, b)
     return g
 
@@ -58,6 +127,59 @@ def grid_edges(h, w):
             if y < h - 1:
                 es.append((y * w + x, (y + 1) * w + x))
     return es
+
+
+# ------------------------------------------------------------------ medium and LARGE deterministic graphs
+#
+# Small exhaustive families never see what depends on the SIZE of an instance: vertex ids >= 257 are not interned by CPython (`is`
+# instead of `==` on indices goes wrong only there), cardinality constraints cut into index blocks (32, 64 ...) are exact below the
+# block size, rank domains derived from a diameter are large enough on small boards.  These graphs have few degrees of freedom but
+# all the features the small ones have: mixed edge orientation, a parallel edge, cycles at both ends of the index range.
+
+LARGE_SIZES = (258, 263, 300, 319)
+MEDIUM_SIZES = (40, 70)
+
+
+def long_graph(n):
+    """Path over all n vertices (every third edge stored high-to-low), a triangle on the three LOWEST and one on the three HIGHEST
+    indices (its chord stored as (n-1, n-3)), a 4-cycle 33-34-35-36, two long chords and one parallel edge near the top."""
+    es = [(i, i + 1) if i % 3 else (i + 1, i) for i in range(n - 1)]
+    es += [(2, 0), (n - 1, n - 3), (36, 33), (5, n - 10), (n - 20, 37), (n - 5, n - 6)]
+    return n, es
+
+
+def sparse_graph(n):
+    """n vertices, 12 edges: a triangle on the three highest indices, a short path below it, a triangle on 0,1,2 and one link;
+    everything else isolated (cheap for the solvers and for the model's line graph)."""
+    es = [(n - 1, n - 3), (n - 3, n - 2), (n - 1, n - 2), (n - 8, n - 7), (n - 6, n - 7), (n - 6, n - 5),
+          (0, 1), (2, 1), (2, 0), (1, n - 8), (n - 5, n - 11), (n - 12, n - 11)]
+    return n, es
+
+
+def big_graphs(kind="all"):
+    """Deterministic (n, edges) list.  kind: 'all' (medium + long + sparse), 'sparse' (only few-edge graphs), 'large' (n >= 258)."""
+    out = []
+    if kind == "all":
+        out += [long_graph(n) for n in MEDIUM_SIZES]
+    if kind in ("all", "large"):
+        out += [long_graph(LARGE_SIZES[0]), long_graph(LARGE_SIZES[2])]
+    if kind == "sparse":
+        out += [sparse_graph(MEDIUM_SIZES[0])]
+    out += [sparse_graph(LARGE_SIZES[1]), sparse_graph(LARGE_SIZES[3])] if kind != "sparse" else [sparse_graph(LARGE_SIZES[0]), sparse_graph(LARGE_SIZES[2])]
+    return out
+
+
+BIG_GRIDS = ((6, 7), (16, 17), (13, 20))        # cells: 42, 272, 260
+BIG_FRAMES = ((5, 5), (6, 6), (15, 16))         # lattice points: 36, 49, 272
+
+
+def history_note(n, edges):
+    """Text for a finding: how the Graph object was built (see mk_graph)."""
+    at = observe_at(n, edges)
+    if at is None:
+        return ""
+    return (" [Graph object history: Graph(%d), the first %d add_edge calls, every accessor read%s, then the remaining add_edge calls]"
+            % (n, at, " and every graph constraint posted once on a throw-away Solver" if n <= OBSERVE_POST_MAX_N else ""))
 
 
 def bool_forms(rng, solver, nvars_bool, nvars_int, n, allow_const=True, plain=False):
@@ -196,3 +318,211 @@ def real_program(call_builder):
     res = core.with_timeout(30, call)
     decls, cs = exprio.parse_prog(exprio.pprog(s, base, cbase))
     return decls, cs, base, res
+
+
+# ------------------------------------------------------------------ targeted patterns for medium / large instances
+#
+# On a graph with hundreds of vertices the searches cannot enumerate; they decide a few dozen patterns chosen so that every kind of
+# verdict occurs at BOTH ends of the index range (the expected verdict always comes from the plain-Python oracle, never from the
+# name of the pattern).
+
+
+def vertex_patterns(n, edges):
+    """[(name, [bool] * n)]: activity patterns."""
+    mid = n // 2
+    win = range(250, 263) if n > 263 else range(max(0, mid - 6), min(n, mid + 7))
+    sets = [("none", set()), ("all", set(range(n))), ("top3", set(range(n - 3, n))), ("top8", set(range(max(0, n - 8), n))),
+            ("low3", set(range(min(3, n)))), ("low3+top3", set(range(min(3, n))) | set(range(n - 3, n))), ("ends", {0, n - 1}),
+            ("last-only", {n - 1}), ("window", set(win)), ("upper-half", set(range(mid, n))),
+            ("all-but-middle", set(range(n)) - {mid}), ("all-but-last", set(range(n - 1))),
+            ("top-path", set(range(max(0, n - 9), max(0, n - 3)))), ("33..36", set(range(33, 37)) if n > 37 else {0})]
+    return [(name, [v in s for v in range(n)]) for name, s in sets]
+
+
+def independent_patterns(n, edges):
+    """[(name, [bool] * n)]: mostly independent vertex sets (for not_adjacent / not_segmenting): single vertices at both ends, cut
+    vertices, two adjacent high vertices, a greedy maximal independent set taken from the top."""
+    adj = {v: set() for v in range(n)}
+    for a, b in edges:
+        adj[a].add(b)
+        adj[b].add(a)
+    greedy, blocked = set(), set()
+    for v in range(n - 1, -1, -1):
+        if v not in blocked:
+            greedy.add(v)
+            blocked |= adj[v]
+    hi_edge = max(edges, key=lambda e: (min(e), max(e))) if edges else None
+    sets = [("none", set()), ("last", {n - 1}), ("first", {0}), ("n-2", {n - 2}), ("n-4", {max(0, n - 4)}), ("n-9", {max(0, n - 9)}),
+            ("n-1,n-3", {n - 1, max(0, n - 3)}), ("ends", {0, n - 1}), ("middle", {n // 2}), ("greedy-independent", greedy),
+            ("high-edge", set(hi_edge) if hi_edge else set()), ("n-7,n-5", {max(0, n - 7), max(0, n - 5)}),
+            ("n-12,n-8,1", {max(0, n - 12), max(0, n - 8), min(1, n - 1)})]
+    return [(name, [v in s for v in range(n)]) for name, s in sets]
+
+
+def edge_patterns(n, edges):
+    """[(name, [bool] * m)]: edge-flag patterns: edges induced by a few vertex sets (triangles at both ends, both at once, a
+    triangle minus one edge), a maximal spanning forest, the forest plus one more edge, a pair of parallel edges, everything, nothing."""
+    m = len(edges)
+
+    def induced(vs):
+        return [a in vs and b in vs for a, b in edges]
+    top3, low3 = set(range(n - 3, n)), set(range(min(3, n)))
+    out = [("none", [False] * m), ("all", [True] * m), ("top3", induced(top3)), ("low3", induced(low3)),
+           ("low3+top3", induced(top3 | low3)), ("33..36", induced(set(range(33, 37)))),
+           ("low3+33..36", induced(low3 | set(range(33, 37)))), ("33..36+top3", induced(top3 | set(range(33, 37)))),
+           ("top8", induced(set(range(max(0, n - 8), n))))]
+    t = induced(top3)
+    if any(t):
+        t2 = list(t)
+        t2[t.index(True)] = False
+        out.append(("top3-minus-one-edge", t2))
+        k = max(i for i in range(m) if t[i])
+        t3 = list(t)
+        t3[k] = False
+        out.append(("top3-minus-last-edge", t3))
+    p = list(range(n))
+
+    def find(x):
+        while p[x] != x:
+            p[x] = p[p[x]]
+            x = p[x]
+        return x
+    forest, rest = [False] * m, []
+    for k in sorted(range(m), key=lambda k: -max(edges[k])):      # from the top of the index range down
+        a, b = edges[k]
+        if find(a) != find(b):
+            p[find(a)] = find(b)
+            forest[k] = True
+        else:
+            rest.append(k)
+    out.append(("spanning-forest", forest))
+    for k in rest[:2] + rest[-1:]:
+        f2 = list(forest)
+        f2[k] = True
+        out.append(("forest+edge%d" % k, f2))
+    seen = {}
+    for k, (a, b) in enumerate(edges):
+        key = (min(a, b), max(a, b))
+        if key in seen:
+            out.append(("parallel-pair", [i in (k, seen[key]) for i in range(m)]))
+            break
+        seen[key] = k
+    return out
+
+
+def winding_regions(h, w):
+    """[(name, set of (y, x))]: long winding connected regions of an h x w board: row serpentine, column serpentine, spiral (all
+    trees whose in-region radius exceeds the board's diameter on boards from about 5x6), each also cut in the middle (two pieces) and
+    with one extra cell that closes a cycle."""
+    out = []
+
+    def serp(hh, ww, tr):
+        cells, order = set(), []
+        for y in range(0, hh, 2):
+            row = [(y, x) for x in range(ww)]
+            if (y // 2) % 2:
+                row.reverse()
+            order += row
+            if y + 2 < hh:
+                order.append((y + 1, row[-1][1]))
+        order = [(x, y) for y, x in order] if tr else order
+        return order
+    out.append(("row-serpentine", serp(h, w, False)))
+    out.append(("column-serpentine", serp(w, h, True)))
+    # spiral with one-cell walls
+    seen, order = set(), []
+    y, x, d = 0, 0, 0
+    dirs = ((0, 1), (1, 0), (0, -1), (-1, 0))
+    seen.add((0, 0))
+    order.append((0, 0))
+    turns = 0
+    while turns < 2:
+        dy, dx = dirs[d]
+        ny, nx = y + dy, x + dx
+        ok = 0 <= ny < h and 0 <= nx < w and (ny, nx) not in seen
+        if ok:
+            # keep a wall: no already visited cell next to the new cell except the one we come from
+            for ay, ax in dirs:
+                c = (ny + ay, nx + ax)
+                if c in seen and c != (y, x):
+                    ok = False
+        if ok:
+            y, x = ny, nx
+            seen.add((y, x))
+            order.append((y, x))
+            turns = 0
+        else:
+            d = (d + 1) % 4
+            turns += 1
+    out.append(("spiral", order))
+    res = []
+    for name, order in out:
+        cells = set(order)
+        res.append((name, cells))
+        if len(order) >= 5:
+            res.append((name + ":cut-in-the-middle", cells - {order[len(order) // 2]}))
+            res.append((name + ":cut-near-the-end", cells - {order[-3]}))
+        # close a cycle: a free cell with exactly two region neighbours (not adjacent in the chain)
+        for yy in range(h):
+            for xx in range(w):
+                if (yy, xx) not in cells and sum(((yy + a, xx + b) in cells) for a, b in dirs) == 2:
+                    res.append((name + ":plus-cycle-cell", cells | {(yy, xx)}))
+                    break
+            else:
+                continue
+            break
+    return res
+
+
+# ------------------------------------------------------------------ grid frames: segment order and rectangle patterns
+
+
+def frame_segments(H, W):
+    """Segments of a BoolGridFrame(H, W) in variable order (horizontal (H+1) x W row-major, then vertical H x (W+1)), as pairs of
+    lattice points."""
+    segs = []
+    for y in range(H + 1):
+        for x in range(W):
+            segs.append(((y, x), (y, x + 1)))
+    for y in range(H):
+        for x in range(W + 1):
+            segs.append(((y, x), (y + 1, x)))
+    return segs
+
+
+def rect_pattern(H, W, rects):
+    """Segment flags: XOR of the boundaries of the rectangles (y0, x0, y1, x1) given in lattice coordinates."""
+    segs = frame_segments(H, W)
+    index = {s: k for k, s in enumerate(segs)}
+    act = [False] * len(segs)
+    for (y0, x0, y1, x1) in rects:
+        for x in range(x0, x1):
+            act[index[((y0, x), (y0, x + 1))]] ^= True
+            act[index[((y1, x), (y1, x + 1))]] ^= True
+        for y in range(y0, y1):
+            act[index[((y, x0), (y + 1, x0))]] ^= True
+            act[index[((y, x1), (y + 1, x1))]] ^= True
+    return act
+
+
+def frame_loop_patterns(H, W):
+    """[(name, flags)] for a frame with H, W >= 3: single small loops in opposite corners and in the middle, the outer boundary, two
+    or three vertex-disjoint loops far apart, loops touching in a point, a loop with one segment missing."""
+    tl, br = (0, 0, 1, 1), (H - 1, W - 1, H, W)
+    cy, cx = H // 2, W // 2
+    mid = (cy, cx, cy + 1, cx + 1)
+    tr, bl = (0, W - 1, 1, W), (H - 1, 0, H, 1)
+    named = [("none", []), ("top-left square", [tl]), ("bottom-right square", [br]), ("outer boundary", [(0, 0, H, W)]),
+             ("top-left + bottom-right squares", [tl, br]), ("top-right + bottom-left squares", [tr, bl]),
+             ("top-left + middle squares", [tl, mid]), ("middle + bottom-right squares", [mid, br]),
+             ("four corner squares", [tl, tr, bl, br]), ("outer boundary + middle square", [(0, 0, H, W), mid]),
+             ("two squares touching in a point", [(0, 0, 1, 1), (1, 1, 2, 2)]), ("1x2 rectangle", [(0, 0, 1, 2)]),
+             ("bottom rows rectangle", [(H - 2, 0, H, W)]), ("bottom-right 2x2", [(H - 2, W - 2, H, W)]),
+             ("top-left 2x2 + bottom-right square", [(0, 0, 2, 2), br])]
+    out = [(name, rect_pattern(H, W, rects)) for name, rects in named]
+    for name, rects in (("bottom-right square minus a segment", [br]), ("outer boundary minus a segment", [(0, 0, H, W)])):
+        p = rect_pattern(H, W, rects)
+        k = max(i for i in range(len(p)) if p[i])
+        p[k] = False
+        out.append((name, p))
+    return out
